@@ -47,13 +47,15 @@ pass_without = ("exit status" not in o_d2) and rc_d2 == 0
 print("confirm: build=%s suite_passes=%s demo_fails_with_patch=%s demo_passes_without=%s" % (rc_b == 0, suite_ok, fail_with, pass_without))
 meta["confirmed"] = {"builds": rc_b == 0, "suite_passes_with_patch": suite_ok, "demo_fails_with_patch": fail_with, "demo_passes_without_patch": pass_without,
                      "demo_output_with_patch": o_d1[-600:], "commands": ["git apply patch.diff", "go build ./...", "go test -vet=off -count=1 ./...", "cd demo && go run ."]}
-# --- 2. run the checks against /repo with the patch applied
-st = sh("git -C /repo status --porcelain")[1].strip()
-if st:
-    print("refusing: /repo not clean:\n" + st); sys.exit(2)
-rc, o = sh("git -C /repo apply %s" % patch)
-if rc != 0:  # /repo may have gained hook lines since the seed was written: retry with fuzz
-    rc, o = sh("cd /repo && patch -p1 -F3 --no-backup-if-mismatch < %s" % patch)
+# --- 2. run the checks against a scratch worktree of /repo with the patch applied (GOLDMARK_DIR), never /repo itself:
+#        package builders run their copies of ./check against /repo concurrently and must not see a seeded change
+SR = "/var/tmp/seed_repo"
+if not os.path.isdir(SR):
+    sh("git -C /repo worktree prune; git -C /repo worktree add --detach %s HEAD" % SR)
+sh("git checkout -q --detach $(git -C /repo rev-parse HEAD) && git checkout -- . && git clean -fdq", cwd=SR)
+rc, o = sh("git apply %s" % patch, cwd=SR)
+if rc != 0:  # /repo may have gained commits since the seed was written: retry with fuzz
+    rc, o = sh("patch -p1 -F3 --no-backup-if-mismatch < %s" % patch, cwd=SR)
 results = {}
 if rc != 0:
     print("patch does not apply to /repo:", o)
@@ -61,7 +63,7 @@ else:
     try:
         for c in checks:
             t0 = time.time()
-            rc_c, o_c = sh("./check %s --tier %s" % (c, tier), cwd=ROOT, timeout=4 * 3600)
+            rc_c, o_c = sh("GOLDMARK_DIR=%s ./check %s --tier %s" % (SR, c, tier), cwd=ROOT, timeout=4 * 3600)
             lines = [l for l in o_c.splitlines() if l.startswith(("VIOLATION", "KNOWN-FINDING", "check "))]
             verdict = "caught" if any(l.startswith("VIOLATION") and "no-failing-input-found" not in l for l in lines) else \
                       ("tie-broken" if any("no-failing-input-found" in l for l in lines) else ("missed" if rc_c == 0 else "error"))
@@ -73,13 +75,13 @@ else:
                     clause = rp.get("clause") or [b.get("kind") + ": " + b.get("what", "")[:200] for b in rp.get("broken", [])]
                     detail = (rp.get("detail") or "")[:400]
                     break
-            results[c] = {"verdict": verdict, "rc": rc_c, "clause": clause, "seconds": round(time.time() - t0)}
+            results[c] = {"verdict": verdict, "rc": rc_c, "clause": clause, "seconds": round(time.time() - t0), "focus": any("focus pass" in l for l in o_c.splitlines())}
             print("check %s: %s rc=%d %s (%.0fs)" % (c, verdict, rc_c, clause, time.time() - t0))
             if verdict == "error":
                 print(o_c[-1500:])
     finally:
-        sh("git -C /repo checkout -- . && git -C /repo clean -fdq")
-        print("/repo restored:", sh("git -C /repo status --porcelain")[1].strip() or "clean")
+        sh("git checkout -- . && git clean -fdq", cwd=SR)
+        print("scratch worktree restored:", sh("git status --porcelain", cwd=SR)[1].strip() or "clean")
 meta["checks"] = results
 # --- 3. store
 dst = os.path.join(ROOT, "seeded", "%s-%s" % (pid, k))
@@ -87,7 +89,7 @@ os.makedirs(dst, exist_ok=True)
 shutil.copy2(patch, os.path.join(dst, "patch.diff"))
 if os.path.isdir(demo_dir):
     shutil.copytree(demo_dir, os.path.join(dst, "demo"), dirs_exist_ok=True)
-readme = os.path.join(out, "README.md")
+readme = os.path.join(out, "SEEDER_README.md") if os.path.exists(os.path.join(out, "SEEDER_README.md")) else os.path.join(out, "README.md")
 if os.path.exists(readme):
     shutil.copy2(readme, os.path.join(dst, "SEEDER_README.md"))
 json.dump(meta, open(os.path.join(dst, "meta.json"), "w"), indent=1)
